@@ -291,7 +291,9 @@ func (impl Implementation) Dtgsja(jobU, jobV, jobQ lapack.GSVDJob, m, p, n, k, l
 
 				// Update (n-l+i)-th and (n-l+j)-th columns of matrices
 				// A and B: A*Q and B*Q.
-				bi.Drot(min(k+l, m), a[n-l+j:], lda, a[n-l+i:], lda, csq, snq)
+				if m > 0 {
+					bi.Drot(min(k+l, m), a[n-l+j:], lda, a[n-l+i:], lda, csq, snq)
+				}
 				bi.Drot(l, b[n-l+j:], ldb, b[n-l+i:], ldb, csq, snq)
 
 				if upper {
